@@ -52,6 +52,7 @@ import (
 	"io"
 	"math/rand"
 	"net/http"
+	"net/url"
 	"os"
 	"sort"
 	"strconv"
@@ -573,6 +574,9 @@ func (sv *scServer) RoundTrip(req *http.Request) (*http.Response, error) {
 		if !ok {
 			st = sv.s.ok2xx
 		}
+		if w := sv.wantURL(); w != "" && req.URL.String() != w {
+			st = 404 // not the endpoint this server announced
+		}
 		text := ""
 		if st == 200 {
 			text = "Accepted"
@@ -581,6 +585,28 @@ func (sv *scServer) RoundTrip(req *http.Request) (*http.Response, error) {
 	}
 	sv.add("http:" + req.Method)
 	return sv.resp(req, 405, "", ""), nil
+}
+
+// wantURL: the endpoint the server announced, resolved by net/url itself ("" if it announced none).
+func (sv *scServer) wantURL() string {
+	for _, it := range sv.s.stream {
+		if it.label != "ep" {
+			continue
+		}
+		data := ""
+		for _, l := range it.lines {
+			if l.key == "data" {
+				data = l.val
+			}
+		}
+		b, err1 := url.Parse(sv.s.base)
+		r, err2 := url.Parse(data)
+		if err1 != nil || err2 != nil {
+			return ""
+		}
+		return b.ResolveReference(r).String()
+	}
+	return ""
 }
 
 // drain returns the step's observation.
